@@ -298,8 +298,22 @@ def models_clause(model, rep, funcs):
     f = funcs.get("acryo/tilt/_base.py::UnionAxes.create_mask")
     if f is not None:
         red = [c for c in calls_in(f) if dotted(c.func) == "reduce"]
-        ok = bool(red) and norm_src(red[0].args[0]) in ("np.maximum", "np.logical_or", "numpy.maximum") and "self._wedges" in norm_src(red[0].args[1]) \
-            and "create_mask(rotator, shape)" in norm_src(red[0].args[1])
+        from ..match import Matcher as _Mx
+        MU = _Mx(f)
+        # the union as an element-wise maximum (or logical or) over every member's mask of the same rotator and shape - reduce() over a generator / list,
+        # the ufunc's own reduce, a maximum along a stacked axis, or the explicit left fold
+        ok = any(MU.has(p_) for p_ in (
+            "reduce($$op, ($w.create_mask(rotator, shape) for $w in self._wedges))", "reduce($$op, [$w.create_mask(rotator, shape) for $w in self._wedges])",
+            "np.maximum.reduce([$w.create_mask(rotator, shape) for $w in self._wedges])", "np.logical_or.reduce([$w.create_mask(rotator, shape) for $w in self._wedges])",
+            "np.max(np.stack([$w.create_mask(rotator, shape) for $w in self._wedges], ...), axis=0)",
+            "np.stack([$w.create_mask(rotator, shape) for $w in self._wedges], ...).max(axis=0)"))
+        if ok and red:
+            ok = norm_src(red[0].args[0]) in ("np.maximum", "np.logical_or", "numpy.maximum")
+        if not ok and not red:
+            ok = MU.all_of(["for $w in self._wedges:\n    ...", "$e = $w.create_mask(rotator, shape)",
+                            "if $u is None:\n    $u = $e\nelse:\n    $u = np.maximum($u, $e)", "return $u"])[0] or \
+                MU.all_of(["for $w in self._wedges:\n    ...", "$e = $w.create_mask(rotator, shape)",
+                           "if $u is None:\n    $u = $e\nelse:\n    $u = np.logical_or($u, $e)", "return $u"])[0]
         rep.instance("SLOT.models", f.loc())
         rep.ob("SLOT", f.anchor, "a multi-axis model keeps the union of its members' masks (element-wise maximum over every member, same rotator and shape)",
                ok, norm_src(red[0])[:120] if red else "no reduce", node=f.node, fn=f, clause="4 models", stmt="def UnionAxes.create_mask")
